@@ -929,19 +929,36 @@ class Interp(EvalMixin):
                 cur = o.get("status")
                 if o.kind in ("stage", "task", "workflow") or isinstance(cur, StatusV) or (o.kind == "message" and expr.attr == "status") or o.kind == "obj":
                     members = cur.members if isinstance(cur, StatusV) else self._default_status(st, o)
+                    tok = cur.tok if isinstance(cur, StatusV) and cur.tok else f"{ref.oid}.status"
+                    if not (isinstance(cur, StatusV) and cur.tok):
+                        st.set_attr(ref, "status", StatusV(members, tok))
 
-                    def setter(s: State, m: frozenset, ref=ref):
-                        s.set_attr(ref, "status", StatusV(m))
+                    def setter(s: State, m: frozenset, ref=ref, tok=tok):
+                        s.set_attr(ref, "status", StatusV(m, tok))
+                        self._propagate(s, tok, m)
 
                     return members, setter
         if isinstance(expr, ast.Name):
             v = self.lookup(st, expr.id)
             if isinstance(v, StatusV):
-                def setter2(s: State, m: frozenset, name=expr.id):
-                    self.assign_name_keep_facts(s, name, StatusV(m))
+                def setter2(s: State, m: frozenset, name=expr.id, tok=v.tok):
+                    self.assign_name_keep_facts(s, name, StatusV(m, tok))
+                    if tok:
+                        self._propagate(s, tok, m)
 
                 return v.members, setter2
         return None
+
+    def _propagate(self, st: State, tok: str, m: frozenset) -> None:
+        """Refine every other holder of the same runtime status value."""
+        for fid, fr in st.frames.items():
+            for k, v in fr.items():
+                if isinstance(v, StatusV) and v.tok == tok and v.members != m:
+                    fr[k] = StatusV(v.members & m or m, tok)
+        for oid, o in list(st.objs.items()):
+            sv = o.get("status")
+            if isinstance(sv, StatusV) and sv.tok == tok and sv.members != m:
+                st.objs[oid] = o.set("status", StatusV(sv.members & m or m, tok))
 
     def _default_status(self, st: State, o: ObjData) -> frozenset:
         if o.kind == "message":
